@@ -1621,6 +1621,7 @@ class WriteTool(BaseTool):
             return result
 
         # WRITE FILE (atomic + symlink-safe)
+        temp_path = None
         try:
             # Ensure parent directory exists
             path_obj.parent.mkdir(parents=True, exist_ok=True)
@@ -1701,12 +1702,17 @@ class WriteTool(BaseTool):
                 result["corrections"],
             )
         except Exception as e:
+            # The temporary file's name is random: keep it out of the message so
+            # that the same failing call always reports the same error.
+            detail = str(e)
+            if temp_path:
+                detail = detail.replace(temp_path, "<temporary file>")
             return self._error_envelope(
                 target_path,
                 [
                     {
                         "code": "E_WRITE",
-                        "message": f"Write error: {str(e)}. Use corrections_only=true to preview normalization without writing.",
+                        "message": f"Write error: {detail}. Use corrections_only=true to preview normalization without writing.",
                     }
                 ],
                 result["corrections"],
